@@ -17,6 +17,7 @@ UNITS = {
   'agg3x2': dict(LCS, wrapper='w_agg.cpp', unroll=2, threads=thr('vp_thr_agg2', 3)),
   # sequential: one batch / one heap kernel from an arbitrary valid state
   'exc':    dict(wrapper='w_exc.cpp', mode='seq', exceptions=True, ptratomics=True, prune=True),
+  'excco':  dict(wrapper='w_exc.cpp', mode='seq', exceptions=True, ptratomics=True, prune=True, cxxflags=['-DCOPYONLY']),
   'batch':  dict(wrapper='w_batch.cpp', mode='seq', selftest=True, ptratomics=True),
 }
 def batches(kinds, maxlen):
@@ -43,6 +44,14 @@ HARNESSES = [
                            for f in range(1, list(b.values()).count(1) + 1)] + [dict(PART=4, FAULT=f) for f in (0, 1)],
        desc='element type whose copy may throw (unit compiled with exceptions, exception lowering of the translator): the FAULT-th element copy of a batch throws: nothing escapes handle_operations, exactly that push is FAILED and leaves no element, the other operations of the batch keep all batch_step guarantees; PART 4: public push() end to end: the exception reaches exactly that caller (via r1::throw_exception), queue unchanged, next push succeeds',
        bounds={'batch': '<=3 operations', 'fault position': 'every copy of the batch (concrete per query)', 'throwing operation': 'element COPY in push(const T&); moves are noexcept'}),
+  dict(name='copyonly_throw', unit='excco', harness='h_batch.c', defines={'EXC': None, 'PART': 5}, cbmc=SEQ_CBMC, timeout=600,
+       scenarios=[{'FAULT': 1}],
+       desc='copy-only element type (copy construction may throw, no move members): second public push() with the FAULT-th copy construction throwing: 1 = vector::push_back (inside the try block of handle_operations), 2 = the `to_place` copy in heapify() (outside it). Oracle: the exception reaches the caller only if its element was not inserted, and the aggregator is left idle (handler_busy == 0)',
+       bounds={'elements': '1 before the push', 'fault position': '1..2 (all copy constructions of that push)'}),
+  dict(name='copyonly_throw_heapify', unit='excco', harness='h_batch.c', defines={'EXC': None, 'PART': 5}, cbmc=SEQ_CBMC, timeout=600,
+       scenarios=[{'FAULT': 2}],
+       desc='copy-only element type (copy construction may throw, no move members): second public push() with the FAULT-th copy construction throwing: 1 = vector::push_back (inside the try block of handle_operations), 2 = the `to_place` copy in heapify() (outside it). Oracle: the exception reaches the caller only if its element was not inserted, and the aggregator is left idle (handler_busy == 0)',
+       bounds={'elements': '1 before the push', 'fault position': '1..2 (all copy constructions of that push)'}),
   dict(name='heap_kernels', unit='batch', harness='h_batch.c', cbmc=['--unwind', '9', '--object-bits', '10'], timeout=900,
        scenarios_quick=[{'PART': 2, 'NN': n, 'MM': n - 1} for n in range(1, 8)] + [{'PART': 2, 'NN': 4, 'MM': 0}, {'PART': 2, 'NN': 5, 'MM': 2}] +
                        [{'PART': 3, 'NN': n, 'MM': m} for n in (1, 2, 4, 7) for m in sorted(set([0, n // 2, n]))],
@@ -64,15 +73,19 @@ HARNESSES = [
        scenarios=[{'K0': 0, 'K1': 1, 'N0': 1}, {'K0': 1, 'K1': 0, 'N0': 2}, {'K0': 1, 'K1': 1, 'N0': 1}, {'K0': 0, 'K1': 0, 'N0': 0}],
        desc='full real code, 2 threads x 1 operation (K: 0 push(p), 1 try_pop) on a queue holding N0 elements; priorities symbolic in {0,1,2}; oracles: no lost operation (blocked-state), history linearizable as a priority queue, final contents = initial + pushed - popped, heap invariant, mark==size==my_size, aggregator idle',
        bounds={'threads': 2, 'ops_per_thread': 1, 'free_rounds': 1, 'forced_rounds': 2, 'loop_unroll': 1, 'priorities': '3 values', 'initial elements': '0..2'}),
-  dict(name='lin_2t_deep', unit='one2k2', harness='h_cpq.c', timeout=3000, cbmc=LCS_CBMC, native_cflags=NATF, tiers=['thorough'], mem_gb=16,
-       scenarios=[dict(K0=a, K1=b, N0=n, ROUNDS=r, **q) for (a, b) in [(0, 1), (1, 0), (1, 1), (0, 0)] for n in (0, 1, 2) for (r, q) in [(2, {}), (3, {'NOQUIESCE': None})]],
+  dict(name='lin_2t_deep', unit='one2k2', harness='h_cpq.c', timeout=3600, cbmc=LCS_CBMC, native_cflags=NATF, tiers=['thorough'], mem_gb=16,
+       scenarios=[dict(K0=a, K1=b, N0=n, ROUNDS=r, **q) for (a, b) in [(0, 1), (1, 0), (1, 1), (0, 0)] for n in (0, 1, 2) for (r, q) in [(2, {}), (2, {'NOQUIESCE': None, 'FORCED1': None})]],
        defines={'NT': 2},
-       desc='as lin_2t with loops unrolled twice (a batch of two is handled without losing a round) and more schedules: 2 free + 2 forced rounds with the blocked-state oracle, and 3 free rounds (safety oracles only)',
-       bounds={'threads': 2, 'ops_per_thread': 1, 'free_rounds': '2 (+2 forced) | 3 (no forced)', 'loop_unroll': 2, 'priorities': '3 values', 'initial elements': '0..2'}),
+       desc='as lin_2t with loops unrolled twice (a batch of two is handled without losing a round) and more schedules: 2 free + 2 forced rounds with the blocked-state oracle, and 2 free + 1 forced round with the safety oracles only',
+       bounds={'threads': 2, 'ops_per_thread': 1, 'free_rounds': '2 (+2 forced, blocked-state oracle) | 2 (+1 forced, safety oracles only)', 'loop_unroll': 2, 'priorities': '3 values', 'initial elements': '0..2'}),
   dict(name='lin_3t', unit='one3', harness='h_cpq.c', defines={'NT': 3, 'ROUNDS': 1}, timeout=3000, cbmc=LCS_CBMC, native_cflags=NATF, tiers=['thorough'], mem_gb=16,
        scenarios=[{'K0': 0, 'K1': 1, 'K2': 1, 'N0': 1}, {'K0': 1, 'K1': 0, 'K2': 0, 'N0': 1}, {'K0': 0, 'K1': 0, 'K2': 1, 'N0': 0}, {'K0': 1, 'K1': 1, 'K2': 1, 'N0': 2}],
        desc='full real code, 3 threads x 1 operation', bounds={'threads': 3, 'ops_per_thread': 1, 'free_rounds': 1, 'forced_rounds': 2, 'loop_unroll': 1, 'priorities': '3 values'}),
 ]
+MANIFEST = dict(
+  level_text='Bounded model checking of the real concurrent_priority_queue<int> / aggregator code from three sides. (1) Threads: for 2-3 threads each running the complete real push(p)/try_pop (aggregator::execute, start_handle_operations, handle_operations, reheap, heapify, vector push_back/pop_back) every interleaving at single-IR-memory-operation granularity within the round bound is decided by the SAT solver for: no lost operation (two-round blocked-state oracle on the status / handler_busy spin loops), linearizability of the recorded invocation/response history against a sequential max-priority queue (all orders compatible with real time; priorities symbolic in a 3-value domain with duplicates), final contents = initial + pushed - popped, heap invariant, mark == size == my_size, aggregator idle. (2) Threads: the combining protocol alone (real aggregator with a minimal client handler), 2-3 threads with up to 2 operations each: handler invocations exclusive, every operation handled exactly once and before its execute() returns, result visible, no lost operation. (3) Sequential inductive step: one call of the real handle_operations on every push/pop batch pattern of <= 3 operations from ANY heapified state (priorities over all int): statuses set, results explained by some sequential order of the batch, contents conserved, heap invariant and mark == size == my_size re-established; heapify/reheap alone on <= 7 elements with any mark; with an element type whose copy throws (unit compiled with exceptions): the failing push alone is reported FAILED / raises in its caller, the rest of the batch is unaffected.',
+  level_note='Bounds per harness in evidence (threads, operations per thread, free/forced rounds, loop unroll, element counts). Quick tier: full-code thread harness with 2 threads, 1 operation each, 1 free + 2 forced rounds at loop unroll 1; deeper schedules (unroll 2, 2 free rounds, 3 threads) in the thorough tier. Sequential consistency. Vector reallocation inside concurrent operations, >3 threads, throwing moves, user comparators are outside. Trusted: clang-14 IR, tools/ir2c.py (validated per run against the real C++ by the selftest differential for the sequential unit), cbmc 6.11.',
+)
 OUTSIDE = [
   'more than 3 threads; more than 1 operation per thread through the full queue code (2 per thread only in the protocol harness agg_*)',
   'schedules with more scheduling rounds than stated per harness; at loop unroll 1 (quick lin_2t) a context switch after the second iteration of a list loop is only reached in the forced rounds',
